@@ -426,7 +426,12 @@ async def get_outputs(world: World, sim: SimRunner):
         # pushed forward below, but it is faster to just save everything
         # than filter out this data here.
         if sim.outputs is not None:
-            sim.outputs[output_time] = data
+            # An in-process simulator may keep (and later change) the
+            # dictionaries it returned, so the cache needs its own copy.
+            sim.outputs[output_time] = {
+                eid: dict(attrs) if isinstance(attrs, dict) else attrs
+                for eid, attrs in data.items()
+            }
 
         # Push forward certain data
         for (src_eid, src_attr), destinations in sim.output_to_push.items():
